@@ -223,7 +223,75 @@ def run(case):
                 feats.append('built_ok')
                 if not any(c[0] == 'canary' for c in verif_targets.LOG) and 'rec0' in c05._plain(got[1]):
                     vio.append({'mech': 'monitor-blind', 'what': 'the canary recorder did not log although the config was evaluated'})
+    if not vio and len(docs) > 1:
+        vio += incremental(case, mdocs, feats)
     res = {'status': 'violation' if vio else 'ok', 'nontrivial': case['nt'], 'feats': feats, 'sig': util.sig(texts)}
     if vio:
         res['violations'] = vio
     return res
+
+
+def _stage(text):
+    from awesomeyaml.builder import Builder
+    b = Builder()
+    b.add_source(text, raw_yaml=True)
+    b.preprocess()
+    return b.stages[0]
+
+
+def incremental(case, mdocs, feats):
+    """the same history applied to ONE long-lived tree: build after the first stage, merge the next stage into that very tree (or into a
+    deep copy of the source kept by the Config just built), build again ...  Every build is judged on the tree as it is at that moment."""
+    import verif_targets
+    from awesomeyaml.config import Config
+    from awesomeyaml.builder import Builder
+    texts = case['texts']
+    rng = random.Random(util.sig(texts))
+    mon = _mon['m']
+    vio = []
+    b = Builder()
+    b.add_source(texts[0], raw_yaml=True)
+    t0 = lib.outcome(b.build)
+    if t0[0] == 'err' or not t0[1]:
+        return vio
+    tree = t0[1]
+    for i in range(len(texts)):
+        if i:
+            st = lib.outcome(lambda: _stage(texts[i]))
+            if st[0] == 'err' or not isinstance(st[1], dict):
+                return vio
+            m = lib.outcome(lambda: tree.ayns.merge(st[1]))
+            if m[0] == 'err':
+                return vio          # (merge failures are judged by the single-shot phase; the tree is unusable afterwards)
+            tree = m[1]
+        try:
+            surv = sorted(_join(p) for p in model.surviving_required(model.build(copy.deepcopy(mdocs[:i + 1]), strict_domain=True)))
+        except (model.OutOfDomain, model.ModelError):
+            return vio
+        if not tree:
+            return vio
+        verif_targets.reset()
+        before = mon.counts['evaluate_node']
+        got = lib.outcome(lambda: Config(tree))
+        feats.append('incremental_build')
+        where = f'after merging stage {i} into the long-lived tree (stages so far: {texts[:i + 1]!r})'
+        if surv:
+            lp = listed_paths(got[1]) if got[0] == 'err' else None
+            if got[0] == 'ok':
+                vio.append({'mech': 'builds-with-surviving-placeholder', 'what': f'{where}: placeholders survive at {surv} but the build succeeded'})
+            elif lp is None:
+                vio.append({'mech': 'wrong-failure', 'what': f'{where}: placeholders survive at {surv}; build fails differently: {lib.describe(got)}'})
+            elif sorted(lp) != surv:
+                vio.append({'mech': 'wrong-path-list', 'what': f'{where}: surviving placeholders {surv} but the error lists {sorted(lp)}'})
+            if verif_targets.LOG or mon.counts['evaluate_node'] != before:
+                vio.append({'mech': 'evaluated-before-check', 'what': f'{where}: evaluation started although placeholders survive at {surv}'})
+        else:
+            if got[0] == 'err' and listed_paths(got[1]) is not None:
+                vio.append({'mech': 'fails-without-surviving-placeholder', 'what': f'{where}: no placeholder survives but the build reports {listed_paths(got[1])}'})
+            elif got[0] == 'ok' and rng.random() < 0.5:
+                # carry on from a copy of the source tree the Config object keeps
+                feats.append('incremental_from_config_source_copy')
+                tree = copy.deepcopy(got[1].ayns.source)
+        if vio:
+            break
+    return vio
